@@ -316,7 +316,7 @@ def run(ctx):
         model.mc(TP, consts, ctx, name, invariants=invs, properties=["AfterFlush"])
         model.mc(TP, dict(consts, Variant='"leak"'), ctx, name + "_neg", invariants=invs, properties=["AfterFlush"], expect_violation=True)
         g, _ = graphwalk.emit_graph(TP, model.cfg_text(consts, view="View", action_constraint="Emit"), ctx, name)
-        st = graphwalk.walk(g, TmpAdapter(f), ctx, name, op_timeout=20.0)
+        st = graphwalk.walk(g, TmpAdapter(f), ctx, name, op_timeout=20.0, paths_per_state=2)
         ctx.note("walk %s" % st)
     consts = {"NFiles": 2 if quick else 3, "Variant": '"ok"'}
     invs = ["AllOpenInside", "AllClosedOutside"]
